@@ -127,6 +127,8 @@ structure DAcc where
   /-- what clients were told in DHCPACKs: (client as RFC 2131 names it — identifier option, else hardware address —,
       address, instant until which it may use it) -/
   acked : List (List Nat × Nat × Nat) := []
+  /-- what the latest reply of any kind (DHCPOFFER too) to a client about an address said: the same triple -/
+  told : List (List Nat × Nat × Nat) := []
 
 def optsBlob (o : DhcpWire.Opts) : List Nat := DhcpWire.serOptions o
 
@@ -224,9 +226,16 @@ def stepD (cfg : Cfg) (acc : DAcc) (op : DOp) (res : DRes) (rowsAfter : Store) :
             | _ => 0
           let isAck := lookupOpt m.options 53 == some [5]
           let me := clientId pkt
-          let acc := if isAck && acc.acked.any (fun (c', x', e') => x' == x && c' != me && decide (e' > acc.now))
-            then { acc with spec := acc.spec ++ ["unsat:C01.no_double_lease:acked-while-another-client-holds-it"] } else acc
+          -- two classes: the holder's latest reply about `x` (of any kind) still runs — a plain double lease —, or the holder
+          -- was, after its DHCPACK, sent a reply with a shorter lease that has run out (the record was moved earlier by
+          -- an offer the client need not have taken up: the known finding of KNOWN_FINDINGS.txt)
+          let holders := acc.acked.filter (fun (c', x', e') => x' == x && c' != me && decide (e' > acc.now))
+          let acc := if isAck && !holders.isEmpty then
+              let plain := holders.any fun (c', _, _) => acc.told.any (fun (c2, x2, e2) => c2 == c' && x2 == x && decide (e2 > acc.now))
+              { acc with spec := acc.spec ++ [s!"unsat:C01.no_double_lease:{if plain then "acked-while-another-client-holds-it" else "holder-was-since-offered-a-shorter-lease"}"] }
+            else acc
           let acc := if isAck then { acc with acked := (me, x, acc.now + toldL) :: acc.acked.filter (fun (c', x', _) => !(c' == me && x' == x)) } else acc
+          let acc := { acc with told := (me, x, acc.now + toldL) :: acc.told.filter (fun (c', x', _) => !(c' == me && x' == x)) }
           -- candidates: allowed outcomes on x; pick the one reproducing the implementation's table
           let cands := (allowed acc.rows acc.now c rq pool).filterMap fun o =>
             match o with
